@@ -176,12 +176,20 @@ func recursionRules(c *core.Ctx, r *core.Report, rule string) {
 	r.Count("recursions_in_startup_packages", count)
 }
 
-// descendsStructure: in every call from a member of the recursion to a member, some argument is a proper part of a
-// parameter of the calling function (or of the top-level function it is a literal of).  "" when that holds.
+// descendsStructure: every cycle of calls among the members of the recursion contains a call in which some argument is
+// a proper part of a parameter (or captured variable) of the calling function: the calls that hand on nothing of that
+// kind do not form a cycle by themselves.  "" when that holds.
 func descendsStructure(comp []*ssa.Function, in map[*ssa.Function]bool) string {
+	flat := map[*ssa.Function][]*ssa.Function{} // calls that do not descend, and literals made (they may be called back)
+	where := map[[2]*ssa.Function]string{}
 	for _, f := range comp {
 		for _, b := range f.Blocks {
 			for _, ins := range b.Instrs {
+				if mc, ok := ins.(*ssa.MakeClosure); ok {
+					if g, ok := mc.Fn.(*ssa.Function); ok && in[g] {
+						flat[f] = append(flat[f], g)
+					}
+				}
 				ci, ok := ins.(ssa.CallInstruction)
 				if !ok {
 					continue
@@ -197,14 +205,7 @@ func descendsStructure(comp []*ssa.Function, in map[*ssa.Function]bool) string {
 					targets = append(targets, g)
 				} else {
 					targets = append(targets, core.SeamAll(com)...)
-				}
-				targets = append(targets, closuresInCell(com.Value, f)...)
-				rec := false
-				for _, g := range targets {
-					rec = rec || in[resolveWrapper(g)]
-				}
-				if !rec {
-					continue
+					targets = append(targets, closuresInCell(com.Value, f)...)
 				}
 				okArg := false
 				for _, a := range com.Args {
@@ -212,10 +213,46 @@ func descendsStructure(comp []*ssa.Function, in map[*ssa.Function]bool) string {
 						okArg = true
 					}
 				}
-				if !okArg {
-					return "(the call at " + f.Prog.Fset.Position(ci.Pos()).String() + " hands on nothing that is a part of a parameter)"
+				for _, g := range targets {
+					g = resolveWrapper(g)
+					if in[g] && !okArg {
+						flat[f] = append(flat[f], g)
+						where[[2]*ssa.Function{f, g}] = f.Prog.Fset.Position(ci.Pos()).String()
+					}
+				}
+				// a member handed over as a function value (a method value, a named function) may be called back
+				for _, a := range com.Args {
+					if fv, isFn := a.(*ssa.Function); isFn && in[resolveWrapper(fv)] {
+						flat[f] = append(flat[f], resolveWrapper(fv))
+					}
 				}
 			}
+		}
+	}
+	// a cycle among the flat edges?
+	state := map[*ssa.Function]int{}
+	var bad string
+	var visit func(f *ssa.Function) bool
+	visit = func(f *ssa.Function) bool {
+		state[f] = 1
+		for _, g := range flat[f] {
+			if state[g] == 1 {
+				bad = where[[2]*ssa.Function{f, g}]
+				return true
+			}
+			if state[g] == 0 && visit(g) {
+				if bad == "" {
+					bad = where[[2]*ssa.Function{f, g}]
+				}
+				return true
+			}
+		}
+		state[f] = 2
+		return false
+	}
+	for _, f := range comp {
+		if state[f] == 0 && visit(f) {
+			return "(a cycle of calls that hand on nothing that is a part of a parameter, e.g. the call at " + bad + ")"
 		}
 	}
 	return ""
@@ -227,7 +264,7 @@ func descendsStructure(comp []*ssa.Function, in map[*ssa.Function]bool) string {
 func partOfParam(v ssa.Value, fn *ssa.Function, depth int) bool {
 	var walk func(v ssa.Value, took bool, d int) bool
 	walk = func(v ssa.Value, took bool, d int) bool {
-		if d > 10 || v == nil {
+		if d > 24 || v == nil {
 			return false
 		}
 		switch x := v.(type) {
